@@ -57,7 +57,8 @@ inductive TimerSt where
   | spawned
   | sleeping (due : Nat)
   | sending
-  | dead
+  | dead          -- aborted or finished; its task has not been seen to end yet
+  | ended         -- the task ended
   deriving DecidableEq, Repr, Inhabited
 
 structure Timer where
@@ -85,6 +86,7 @@ structure AState where
   streamEnded : Bool
   busy : Option Nat         -- the open callback sleeps until then
   abandon : Option Cb       -- callback cut short by a cancellation, drop guard not seen yet
+  drained : List Nat        -- handles whose own `Shared` latch clone was polled to completion
   deriving DecidableEq, Repr, Inhabited
 
 inductive Label where
@@ -109,6 +111,8 @@ inductive Label where
   | ctxTimer (t : Nat) (k : TimerKind) (d : Nat)
   | ctxWeak (k : HKind) (h : Option Nat)
   | fire (t : Nat) (m : Option Nat)
+  | timerArm (t : Nat) (due : Nat)   -- executor: the timer task went to sleep until `due`
+  | timerEnd (t : Nat)               -- executor: the timer task ended
   | tickBegin (t m : Nat)
   | time (t : Nat)
   | cancel
@@ -121,13 +125,10 @@ inductive Label where
   | tDeq
   | tChanEnd
   | tStreamEnd
-  | tTimerArm (t : Nat)
-  | tTimerWake (t : Nat)
-  | tTimerSent (t : Nat)
   deriving DecidableEq, Repr, Inhabited
 
 def Label.isTau : Label → Bool
-  | .tDeq | .tChanEnd | .tStreamEnd | .tTimerArm _ | .tTimerWake _ | .tTimerSent _ => true
+  | .tDeq | .tChanEnd | .tStreamEnd => true
   | _ => false
 
 namespace AState
@@ -136,7 +137,7 @@ def init (cfg : Cfg) (h0 : Nat) (k0 : HKind) : AState :=
   { cfg, chan := Chan.init cfg.cap, phase := .unstarted, clock := 0,
     handles := [(h0, k0)], ops := [], latch := .pending, latchPolled := false,
     joinTaken := false, result := none, birth := 0, log := [], timers := [],
-    avail := [], streamEnded := false, busy := none, abandon := none }
+    avail := [], streamEnded := false, busy := none, abandon := none, drained := [] }
 
 def handleKind (s : AState) (h : Nat) : Option HKind :=
   (s.handles.find? (fun p => p.1 == h)).map (·.2)
@@ -212,7 +213,7 @@ def curSlot (s : AState) : List Nat :=
   | _ => []
 
 def killTimers (s : AState) : AState :=
-  { s with timers := s.timers.map (fun t => { t with st := .dead }) }
+  { s with timers := s.timers.map (fun t => if t.st = .ended then t else { t with st := .dead }) }
 
 /-- The loop future is gone without `notify()`: failure of any kind. -/
 def fail (s : AState) : AState :=
@@ -356,7 +357,10 @@ def retEffect (s : AState) (rec : OpRec) : AState :=
   let s1 := s.removeOp rec.o
   let s2 := if consumesHandle rec.kind then s1.removeHandle rec.h else s1
   let s3 := if rec.st = .joining then { s2 with result := none } else s2
-  if isLatchOp rec.kind ∧ rec.st = .pending then { s3 with latchPolled := true } else s3
+  if isLatchOp rec.kind ∧ rec.st = .pending then
+    { s3 with latchPolled := true,
+              drained := (if rec.kind = .await then rec.h :: s3.drained else s3.drained) }
+  else s3
 
 def stepRet (s : AState) (o : Nat) (r : Res) : Option AState :=
   match s.findOp o with
@@ -388,7 +392,8 @@ def stepMk (s : AState) (h h' : Nat) (k' : HKind) : Option AState :=
   | none => none
   | some k =>
     if convOk k k' && (s.handleKind h').isNone then
-      some { s with handles := s.handles ++ [(h', k')] }
+      some { s with handles := s.handles ++ [(h', k')],
+                    drained := (if s.drained.contains h then h' :: s.drained else s.drained) }
     else none
 
 def stepUpgrade (w : Wiring) (s : AState) (h : Nat) (h' : Option Nat) : Option AState :=
@@ -401,7 +406,9 @@ def stepUpgrade (w : Wiring) (s : AState) (h : Nat) (h' : Option Nat) : Option A
       if s.reqOk w (w.upgradeReq k) then
         (match h' with
          | some h' =>
-           if (s.handleKind h').isNone then some { s with handles := s.handles ++ [(h', ks)] }
+           if (s.handleKind h').isNone then
+             some { s with handles := s.handles ++ [(h', ks)],
+                           drained := (if s.drained.contains h then h' :: s.drained else s.drained) }
            else none
          | none => none)
       else
@@ -411,7 +418,8 @@ def stepUpgrade (w : Wiring) (s : AState) (h : Nat) (h' : Option Nat) : Option A
 
 def stepDetach (s : AState) (h h' : Nat) : Option AState :=
   if s.handleKind h == some .owning && (s.handleKind h').isNone then
-    some { (s.removeHandle h) with handles := (s.removeHandle h).handles ++ [(h', .addr)] }
+    some { (s.removeHandle h) with handles := (s.removeHandle h).handles ++ [(h', .addr)],
+                                   drained := (if s.drained.contains h then h' :: s.drained else s.drained) }
   else none
 
 def stepDrop (s : AState) (h : Nat) : Option AState :=
@@ -440,7 +448,8 @@ def stepQuery (w : Wiring) (s : AState) (h : Nat) (b : Bool) : Option AState :=
   | some .addr | some .owning | some .weakAddr =>
     (match w.livenessQuery with
      | .truthful => if b == s.latchSet then some s else none
-     | .peekOnly => if b == (s.latchSet && s.latchPolled) then some s else none
+     | .peekOnly =>
+       if b == (s.latchSet && s.latchPolled && !s.drained.contains h) then some s else none
      | .unknown => none)
   | _ => none
 
@@ -572,27 +581,44 @@ def findTimer (s : AState) (t : Nat) : Option Timer := s.timers.find? (fun x => 
 def setTimer (s : AState) (t : Nat) (st : TimerSt) : AState :=
   { s with timers := s.timers.map (fun x => if x.id == t then { x with st := st } else x) }
 
-def stepTimerArm (s : AState) (t : Nat) : Option AState :=
-  match s.findTimer t with
-  | some x => if x.st == .spawned then some (s.setTimer t (.sleeping (s.clock + x.d))) else none
-  | none => none
-
 def timerDue (s : AState) (x : Timer) : Bool :=
   match x.st with
   | .sleeping due => due ≤ s.clock
   | _ => false
 
-/-- `interval`: wake, upgrade the weak sender, force-send a tick, sleep again. -/
-def stepTimerWake (w : Wiring) (s : AState) (t : Nat) : Option AState :=
+/-- The timer task goes to sleep: first arming, or `interval` woke up, upgraded its weak
+    sender, force-sent a tick and sleeps again, or `interval_with` got its send through. -/
+def stepTimerArm (w : Wiring) (s : AState) (t due : Nat) : Option AState :=
   match s.findTimer t with
   | some x =>
-    if x.kind == .interval && s.timerDue x then
-      if s.reqOk w (w.upgradeReq .weakSender) then
-        (match s.submit (.tick t) (w.timerPath .interval) (.timer t) with
-         | some s' => some (s'.setTimer t (.sleeping (s.clock + x.d)))
-         | none => some (s.setTimer t .dead))
-      else some (s.setTimer t .dead)
-    else none
+    if due ≠ s.clock + x.d then none else
+    (match x.st with
+     | .spawned => some (s.setTimer t (.sleeping due))
+     | .sleeping _ =>
+       if x.kind = .interval ∧ s.timerDue x ∧ s.reqOk w (w.upgradeReq .weakSender) then
+         (match s.submit (.tick t) (w.timerPath .interval) (.timer t) with
+          | some s' => some (s'.setTimer t (.sleeping due))
+          | none => none)
+       else none
+     | .sending =>
+       if x.kind = .intervalWith ∧ !s.chan.isParked (.timer t) then some (s.setTimer t (.sleeping due))
+       else none
+     | _ => none)
+  | none => none
+
+/-- The timer task ended: aborted, finished, or its weak sender no longer upgrades. -/
+def stepTimerEnd (w : Wiring) (s : AState) (t : Nat) : Option AState :=
+  match s.findTimer t with
+  | some x =>
+    (match x.st with
+     | .dead => some (s.setTimer t .ended)
+     | .sleeping _ =>
+       if x.kind = .interval ∧ s.timerDue x ∧ !(s.reqOk w (w.upgradeReq .weakSender) && s.chan.rx) then
+         some (s.setTimer t .ended)
+       else none
+     | .sending =>
+       if x.kind = .delayedSend ∧ !s.chan.isParked (.timer t) then some (s.setTimer t .ended) else none
+     | _ => none)
   | none => none
 
 /-- `interval_with` / `delayed_send` / `delayed_exec`: the user closure runs. -/
@@ -609,16 +635,6 @@ def stepFire (w : Wiring) (s : AState) (t : Nat) (m : Option Nat) : Option AStat
           | none => some (s.setTimer t .dead))
        else some (s.setTimer t .dead)
      | _, _ => none)
-  | none => none
-
-def stepTimerSent (s : AState) (t : Nat) : Option AState :=
-  match s.findTimer t with
-  | some x =>
-    if x.st == .sending && !s.chan.isParked (.timer t) then
-      (match x.kind with
-       | .intervalWith => some (s.setTimer t (.sleeping (s.clock + x.d)))
-       | _ => some (s.setTimer t .dead))
-    else none
   | none => none
 
 def stepTickBegin (s : AState) (t m : Nat) : Option AState :=
@@ -722,6 +738,8 @@ def step (w : Wiring) (s : AState) : Label → Option AState
   | .ctxTimer t k d => s.stepCtxTimer t k d
   | .ctxWeak k h => s.stepCtxWeak w k h
   | .fire t m => s.stepFire w t m
+  | .timerArm t due => s.stepTimerArm w t due
+  | .timerEnd t => s.stepTimerEnd w t
   | .tickBegin t m => s.stepTickBegin t m
   | .time t => s.stepTime t
   | .cancel => s.stepCancel
@@ -733,9 +751,6 @@ def step (w : Wiring) (s : AState) : Label → Option AState
   | .tDeq => s.stepDeq
   | .tChanEnd => s.stepChanEnd w
   | .tStreamEnd => s.stepStreamEndTau
-  | .tTimerArm t => s.stepTimerArm t
-  | .tTimerWake t => s.stepTimerWake w t
-  | .tTimerSent t => s.stepTimerSent t
 
 /-- Run a label sequence from a state. -/
 def run (w : Wiring) (s : AState) : List Label → Option AState
